@@ -534,6 +534,33 @@ static void c15_ctl_script(vorbis_info *vi,rng_t *r,int n,const char *when,char 
     if(k+24<logn) k+=snprintf(log+k,logn-k," %s%x:%d",when[0]=='a'?"+":"",req,ret);
   }
 }
+/* boundary search: the accepted nominal bitrates (or qualities) of one (channels, rate) form an interval; its two ends are found by bisection over real set-up calls, so the
+   values that sit exactly on the library's own table edges are tried whatever those tables are */
+static int c15_accept_managed(int ch,long rate,long bnom){ vorbis_info vi; vorbis_info_init(&vi); int r=vorbis_encode_setup_managed(&vi,ch,rate,-1,bnom,-1); vorbis_info_clear(&vi); return r==0; }
+static int c15_accept_vbr(int ch,long rate,float q){ vorbis_info vi; vorbis_info_init(&vi); int r=vorbis_encode_setup_vbr(&vi,ch,rate,q); vorbis_info_clear(&vi); return r==0; }
+static int c15_managed_edges(int ch,long rate,long *lo,long *hi){
+  long b=0; double f[]={1.0,0.5,2.0,0.25,4.0,0.125,3.0,1.5,0.75};
+  for(int i=0;i<9 && !b;i++){ long t=(long)(rate*(double)ch*f[i]); if(t>0 && c15_accept_managed(ch,rate,t)) b=t; }
+  if(!b) return 0;
+  long good=b,bad=b; while(bad<(1L<<40) && c15_accept_managed(ch,rate,bad)){ good=bad; bad*=2; }
+  if(bad>=(1L<<40)) return 0;
+  while(bad-good>1){ long m=good+(bad-good)/2; if(c15_accept_managed(ch,rate,m)) good=m; else bad=m; }
+  *hi=good;
+  good=b; bad=0; while(good-bad>1){ long m=bad+(good-bad)/2; if(c15_accept_managed(ch,rate,m)) good=m; else bad=m; }
+  *lo=good; return 1;
+}
+static int c15_vbr_edges(int ch,long rate,float *lo,float *hi){
+  if(!c15_accept_vbr(ch,rate,0.4f)) return 0;
+  int have=0; float good=0.4f,bad=4.0f;
+  if(!c15_accept_vbr(ch,rate,bad)){   /* (the pinned tree clamps every quality above 1 to just below 1, so there is no upper edge there) */
+    for(int i=0;i<60 && nextafterf(good,bad)!=bad;i++){ float m=good+(bad-good)*0.5f; if(m==good||m==bad) break; if(c15_accept_vbr(ch,rate,m)) good=m; else bad=m; }
+    *hi=good; have|=2; }
+  good=0.4f; bad=-4.0f;
+  if(!c15_accept_vbr(ch,rate,bad)){
+    for(int i=0;i<60 && nextafterf(good,bad)!=bad;i++){ float m=good+(bad-good)*0.5f; if(m==good||m==bad) break; if(c15_accept_vbr(ch,rate,m)) good=m; else bad=m; }
+    *lo=good; have|=1; }
+  return have;
+}
 static void case_c15(const drvargs_t *a,long id){
   rng_t r; rng_seed(&r,a->seed,15,(uint64_t)id);
   res_begin(id);
@@ -556,6 +583,17 @@ static void case_c15(const drvargs_t *a,long id){
     if(bsel<40){ bnom=per; } else if(bsel<55){ bnom=per; bmax=(long)(per*1.3); bmin=(long)(per*0.7); } else if(bsel<63){ bmax=per; } else if(bsel<70){ bmin=per; }
     else if(bsel<78){ bmax=per/2; bnom=per; bmin=per*2; } else if(bsel<86){ bmax=weird_long(&r); bnom=weird_long(&r); bmin=weird_long(&r); } else if(bsel<92){ bnom=0; bmax=0; bmin=0; } else { bnom=per; bmax=per; bmin=per; } }
   int entry=(int)rng_below(&r,4);
+  if(id%8==3){   /* edge stratum: sensible channels and rates, the request placed exactly on (or one step beside) the end of the accepted interval */
+    static const int chs[]={1,2,1,2,3,4,5,6,7,8,2,6}; ch=chs[rng_below(&r,12)]; int k=(int)rng_below(&r,100);
+    rate= k<50?common[rng_below(&r,13)]: k<80?edges[rng_below(&r,8)]+rng_range(&r,-1,1):(long)(8000*pow(24.0,rng_unit(&r)));
+    if(entry==1||entry==2){ long lo,hi;
+      if(c15_managed_edges(ch,rate,&lo,&hi)){ int w=(int)rng_below(&r,6); long v= w==0?hi: w==1?lo: w==2?hi+1: w==3?lo-1: w==4?hi-1:lo+1; int form=(int)rng_below(&r,4);
+        bmax=bnom=bmin=-1; if(form==0) bnom=v; else if(form==1){ bnom=v; bmax=v; bmin=v; } else if(form==2){ bmax=v; } else { bnom=v; bmax=(long)(v*1.2); }
+        res_count("managed_edge_requests",1); res_bucket("edge|managed|%s|form%d",w==0?"top":w==1?"bottom":w==2?"top+1":w==3?"bottom-1":w==4?"top-1":"bottom+1",form); } }
+    else { float lo=0,hi=0; int have=c15_vbr_edges(ch,rate,&lo,&hi); int w=(int)rng_below(&r,6);
+      if((w<3 && (have&1)) || !(have&2)){ if(have&1){ q= w%3==0?lo: w%3==1?nextafterf(lo,-9.f):nextafterf(lo,9.f); res_count("vbr_edge_requests",1); res_bucket("edge|vbr|bottom%d",w%3); } }
+      else { q= w%3==0?hi: w%3==1?nextafterf(hi,9.f):nextafterf(hi,-9.f); res_count("vbr_edge_requests",1); res_bucket("edge|vbr|top%d",w%3); } }
+  }
   char desc[500]; snprintf(desc,sizeof desc,"entry=%s ch=%d rate=%ld q=%g br=%ld/%ld/%ld ctl:",entry==0?"setup_vbr":entry==1?"setup_managed":entry==2?"init":"init_vbr",ch,rate,(double)q,bmax,bnom,bmin);
   vorbis_info vi; vorbis_info_init(&vi);
   int ret;
